@@ -148,7 +148,22 @@ func Path(v ssa.Value) string {
 	return path(v, 0)
 }
 
+// PathSubst renders like Path but prints the values in subst as the given placeholders.
+func PathSubst(v ssa.Value, subst map[ssa.Value]string) string {
+	old := pathSubst
+	pathSubst = subst
+	defer func() { pathSubst = old }()
+	return path(v, 0)
+}
+
+var pathSubst map[ssa.Value]string
+
 func path(v ssa.Value, depth int) string {
+	if pathSubst != nil {
+		if s, ok := pathSubst[v]; ok {
+			return s
+		}
+	}
 	if depth > 12 {
 		return "…"
 	}
